@@ -54,6 +54,39 @@ pub fn ch(o: Option<Ordering>) -> char { match o { Some(Ordering::Less) => 'L', 
 pub fn esc(s: String) -> String { s.replace('\\', "\\\\").replace('\n', "\\n") }
 '''
 
+# hostile invocation scope (C14): every std name the expansions mention is redefined, the prelude is off
+HOSTILE_PRELUDE = r'''
+/// inherent methods named like the trait methods: fully qualified calls must not pick them up
+impl<TT: ?Sized> P<TT> {
+	pub fn clone(&self) -> ! { panic!("inherent clone hijacked the call") }
+	pub fn eq(&self, _: &Self) -> ! { panic!("inherent eq hijacked the call") }
+	pub fn ne(&self, _: &Self) -> ! { panic!("inherent ne hijacked the call") }
+	pub fn partial_cmp(&self, _: &Self) -> ! { panic!("inherent partial_cmp hijacked the call") }
+	pub fn cmp(&self, _: &Self) -> ! { panic!("inherent cmp hijacked the call") }
+	pub fn hash(&self, _: u8) -> ! { panic!("inherent hash hijacked the call") }
+	pub fn fmt(&self, _: u8) -> ! { panic!("inherent fmt hijacked the call") }
+	pub fn default() -> ! { panic!("inherent default hijacked the call") }
+}
+'''
+
+HOSTILE_SCOPE = r'''
+macro_rules! matches { ($($t:tt)*) => { compile_error!("hijacked matches!") } }
+macro_rules! unreachable { ($($t:tt)*) => { compile_error!("hijacked unreachable!") } }
+macro_rules! panic { ($($t:tt)*) => { compile_error!("hijacked panic!") } }
+macro_rules! write { ($($t:tt)*) => { compile_error!("hijacked write!") } }
+macro_rules! format_args { ($($t:tt)*) => { compile_error!("hijacked format_args!") } }
+macro_rules! stringify { ($($t:tt)*) => { compile_error!("hijacked stringify!") } }
+macro_rules! concat { ($($t:tt)*) => { compile_error!("hijacked concat!") } }
+pub mod core {} pub mod std {} pub mod alloc {} pub mod zeroize {}
+pub trait Clone {} pub trait Copy {} pub trait Debug {} pub trait Default {} pub trait Eq {} pub trait Hash {} pub trait Ord {}
+pub trait PartialEq {} pub trait PartialOrd {} pub trait Zeroize {} pub trait ZeroizeOnDrop {} pub trait Drop {} pub trait Hasher {}
+pub trait From {} pub trait Into {} pub trait Sized {} pub trait Fn {} pub trait AssertCopy {} pub trait AssertEq {}
+pub struct Option; pub struct Some; pub struct None; pub struct Ok; pub struct Err; pub struct Result; pub struct Ordering;
+pub struct Less; pub struct Equal; pub struct Greater; pub struct Formatter; pub struct PhantomData; pub struct String; pub struct Box; pub struct Vec;
+pub struct DebugStruct; pub struct DebugTuple; pub struct Discriminant;
+pub fn discriminant() {} pub fn drop() {} pub fn unreachable_unchecked() {} pub fn transmute() {} pub fn cast() {} pub fn forget() {}
+'''
+
 ZPRELUDE = r'''
 impl zeroize::Zeroize for X { fn zeroize(&mut self) {} }
 pub struct Z<TT: ?Sized>(pub u8, pub PhantomData<TT>);
@@ -248,7 +281,23 @@ def view_fn(it, inst):
     return 'fn view(v: &%s%s) -> (usize, Vec<u8>) { match *v { %s } }' % (name, inst, ', '.join(arms))
 
 
-def item_module(idx, cid, it, vals, zeroize):
+def hostile_ok(it):
+    """the user's own bounds must not mention names the hostile scope redefines (they would mean the hostile items)"""
+    toks = []
+    g = it['generics']
+    for p in g['params']:
+        toks += list(p[2]) + (list(p[3]) if len(p) > 3 else [])
+    for p in (g['where'][0] if g['where'] else []):
+        toks += list(p)
+    for a in it['attrs']:
+        if a[0] == 'Dw' and a[1][0] == 'List':
+            for gg in (a[1][2] or []):
+                if gg[0] == 'Pred':
+                    toks += list(gg[1][gg[1].index(':'):]) if ':' in gg[1] else list(gg[1])
+    return all(t in ('Tr', 'Tr2', '+', ':', ',') or t.startswith("'") or t in [p[1] for p in g['params']] or t in ('u8', 'usize') or t.isdigit() for t in toks)
+
+
+def item_module(idx, cid, it, vals, zeroize, hostile=False):
     """Rust source of one module running all observations of one item"""
     pit = it
     inst = instantiation(it)
@@ -258,7 +307,21 @@ def item_module(idx, cid, it, vals, zeroize):
     L = []
     L.append('pub mod m%d {' % idx)
     L.append('use super::*;')
-    L.append(item_txt(pit))
+    if hostile:
+        pit = copy.deepcopy(it)
+        pit['vis'] = ['pub']
+        k = pit['kind']
+        if k[0] == 'Struct':
+            for f in k[2]:
+                f['vis'] = ['pub']
+        L.append('#[no_implicit_prelude] pub mod h {')
+        L.append('use ::derive_where::derive_where; use super::super::{%s, Tr, Tr2, X};' % pt)
+        L.append(HOSTILE_SCOPE)
+        L.append(item_txt(pit))
+        L.append('}')
+        L.append('use self::h::%s;' % it['name'])
+    else:
+        L.append(item_txt(pit))
     L.append(view_fn(it, inst))
     L.append('fn show(v: &%s) -> String { let (i, f) = view(v); format!("{}:{}", i, f.iter().map(|x| format!("{},", x)).collect::<String>()) }' % ty)
     L.append('pub fn run() {')
@@ -294,7 +357,7 @@ def item_module(idx, cid, it, vals, zeroize):
     return '\n'.join(L)
 
 
-def build_and_run(cfg, modules, repo, scratch_root, keep_src=None):
+def build_and_run(cfg, modules, repo, scratch_root, keep_src=None, hostile=False):
     """returns (ok, stdout, compile_errors_json_lines)"""
     feats = CFGS[cfg]['features']
     scratch = tempfile.mkdtemp(prefix='dwprobe-', dir=scratch_root)
@@ -305,7 +368,7 @@ def build_and_run(cfg, modules, repo, scratch_root, keep_src=None):
         open(os.path.join(scratch, 'Cargo.toml'), 'w').write('[package]\nname = "probe"\nversion = "0.0.0"\nedition = "2021"\n[workspace]\n[dependencies]\n%s\n[profile.dev]\ndebug = 0\n' % deps)
         import runner as _r
         shutil.copy(_r.lockfile(), os.path.join(scratch, 'Cargo.lock'))
-        src = PRELUDE + (ZPRELUDE if CFGS[cfg]['zeroize'] else '') + '\n'.join(m for _, m in modules) + \
+        src = PRELUDE + (ZPRELUDE if CFGS[cfg]['zeroize'] else '') + (HOSTILE_PRELUDE if hostile else '') + '\n'.join(m for _, m in modules) + \
             '\nfn main() {\nlet skip: Vec<usize> = std::env::args().skip(1).filter_map(|a| a.parse().ok()).collect();\n' + \
             '\n'.join('if !skip.contains(&%d) { m%d::run(); }' % (i, i) for i, _ in modules) + '\nprintln!("DONE");\n}\n'
         open(os.path.join(scratch, 'src', 'main.rs'), 'w').write(src)
